@@ -6,6 +6,7 @@ import GoMailModel.Mime.Fold
 import GoMailModel.Mime.Body
 import Driver.MsgOps
 import Driver.SmtpOps
+import Driver.EmlOps
 import GoMailModel.Eml.Params
 /-
   gmdriver: one operation per input line, one reply line per operation.
@@ -17,6 +18,7 @@ def handle (toks : List String) : String :=
   match toks with
   | "msg" :: ops => MsgOps.handle ops
   | "smtp" :: ops => SmtpOps.handle ops
+  | "emlbody" :: ops => EmlOps.handle ops
   | ["mph", v] =>
     match decBytes v with
     | some b =>
